@@ -100,9 +100,12 @@ def main(argv=None):
     runner.RUN_TAG = f"run_{os.getpid()}"
     if a.only:
         jobs = [(h, o) for h, o in jobs if a.only in h.name]
+    scale = float(os.environ.get("VERIF_BUDGET_SCALE", "1") or 1)  # stretches the budgets of the budgeted explorations
     for h, o in jobs:
         o.setdefault("seed", seed)
         o.setdefault("smt2_samples", 1 if a.tier == "quick" else 3)
+        if o.get("time_budget") and scale != 1:
+            o["time_budget"] = o["time_budget"] * scale
     # ---- oracle validation against a dense simulator (validates the trusted base, decides nothing) --------
     from oracle import validate
     ov_fails, ov_counts = validate.run(verbose=False)
